@@ -6,8 +6,6 @@ NEXT Next
 INVARIANT LawEmpty
 INVARIANT LawMonotone
 INVARIANT LawPathNs
-INVARIANT LawNsOrder
-INVARIANT LawPathLikeSym
 INVARIANT LawLax
 INVARIANT LawDevScope
 INVARIANT Emit
